@@ -48,6 +48,8 @@ def lifecycle_clauses(case, d):
     for i, s in state.items():
         if s not in ("idle",):
             bad.append("not-exited-when-do-returned" if s in ("live", "closing") else "malformed")
+    if d["raised"].startswith("other:") or d["raised"] == "kbint":
+        bad.append("unexpected-exception-from-do:" + d["raised"].split(":")[-1])
     if d["late"]:
         bad.append("exited-only-by-garbage-collector-after-do-returned")
     # a doer that can never be extended again is entered at most once
